@@ -157,8 +157,11 @@ HL_OPS = {
 ASSUME_OPS = {"guard": "W", "data_mut": "W", "read_guard": "R", "data_ref": "R"}
 RAW_HL = {"lock": ("ACQ", "W"), "try_lock": ("TRY", "W"), "unlock": ("REL", "W"),
           "lock_exclusive": ("ACQ", "W"), "try_lock_exclusive": ("TRY", "W"), "unlock_exclusive": ("REL", "W"),
-          "lock_shared": ("ACQ", "R"), "try_lock_shared": ("TRY", "R"), "unlock_shared": ("REL", "R")}
-RAW_TRAITS = ("lock_api::RawMutex", "lock_api::RawRwLock", "lock_api::mutex::RawMutex", "lock_api::rwlock::RawRwLock")
+          "lock_shared": ("ACQ", "R"), "try_lock_shared": ("TRY", "R"), "unlock_shared": ("REL", "R"),
+          # the fair releases of lock_api's RawMutexFair / RawRwLockFair: the same release, with a hand-off policy
+          "unlock_fair": ("REL", "W"), "unlock_exclusive_fair": ("REL", "W"), "unlock_shared_fair": ("REL", "R")}
+RAW_TRAITS = ("lock_api::RawMutex", "lock_api::RawRwLock", "lock_api::mutex::RawMutex", "lock_api::rwlock::RawRwLock",
+              "lock_api::RawMutexFair", "lock_api::RawRwLockFair", "lock_api::mutex::RawMutexFair", "lock_api::rwlock::RawRwLockFair")
 
 # std functions that cannot unwind (no user code, no allocation failure we model).
 # One line of reason each.
@@ -250,7 +253,7 @@ class Interp:
         if p == "*":
             if k in ("ref", "ptr"):
                 return t["ty"]
-            if k == "adt" and (t["path"].endswith("Box") or t["path"].endswith("NonNull")) and t.get("args"):
+            if k == "adt" and t["path"].split("::")[-1] in ("Box", "NonNull", "Arc", "Rc") and t.get("args"):
                 return t["args"][0]
             return None
         if p == "cell":
@@ -1471,7 +1474,8 @@ class Interp:
         ev = self.emit(st, {"k": "CALL", "def": tdef, "base": d, "args": args}, fn, line)
         rv = self.fresh_op(st, "r", dest_ty, tag=("call", tdef, ev["i"]))
         ev["result"] = rv[1]
-        nounwind = (d in NOUNWIND) or (tdef in NOUNWIND) or (d in self.nounwind_extra)
+        nounwind = (d in NOUNWIND) or (tdef in NOUNWIND) or (d in self.nounwind_extra) or \
+            d.startswith(("std::sync::atomic::", "core::sync::atomic::"))      # atomic operations run no code that can panic
         return self.outcomes(st, rv, may_unwind and not nounwind, tdef, fn, line)
 
     def hl_event(self, st, fn, name, args, line, may_unwind, tdef):
@@ -1799,6 +1803,18 @@ def _first_targ(ce):
     for a in ce.get("args", []) or []:
         if isinstance(a, dict) and a.get("k") not in ("region", "const"):
             return a
+    return None
+
+
+def m_rc_deref(I, st, fn, ce, args, line, depth, dest_ty, may_unwind):
+    """`&Arc<T>` / `&Rc<T>` -> `&T`: the pointee of the counted pointer (a stable place, like a Box's)"""
+    a = args[0]
+    if a[0] == "ref":
+        return [("ret", Ref(I.add_proj(a[1], "*")), st)]
+    if a[0] == "op":
+        loc = I.oploc.get(a[1])
+        if loc is not None:
+            return [("ret", Ref(I.add_proj(I.add_proj(loc, "*"), "*")), st)]
     return None
 
 
